@@ -21,9 +21,9 @@ class ReleaseDuring(Scenario):
     max_steps = 60000
     max_time = 40.0
 
-    def __init__(self, op, n, point):
-        self.op, self.n, self.point = op, n, point
-        self.name = f"release-during[{op},n={n},{point[0]}{'' if len(point) < 2 else point[1]}]"
+    def __init__(self, op, n, point, bad=None):
+        self.op, self.n, self.point, self.bad = op, n, point, bad
+        self.name = f"release-during[{op},n={n},{point[0]}{'' if len(point) < 2 else point[1]}{'' if bad is None else ',unencodable-instance-' + str(bad)}]"
 
     def build(self, s):
         from pydicom.dataset import Dataset
@@ -57,8 +57,10 @@ class ReleaseDuring(Scenario):
                 s.block("handler.wait", "release", release_seen, 10.0)
                 ctx["handler_log"].append(("held", k, release_seen()))
 
-        def mk():
+        def mk(k=None):
             ds = Dataset()
+            if k is not None and k == self.bad:
+                ds.Rows = 70000  # a sub-operation instance that cannot be encoded (US value out of range)
             ds.PatientID = "1"
             ds.SOPClassUID = dp.CT
             ds.SOPInstanceUID = "1.2.3"
@@ -75,7 +77,7 @@ class ReleaseDuring(Scenario):
                 hold(k)
                 if k < n:
                     ctx["handler_log"].append(("yield", k))
-                    yield 0xFF00, mk()
+                    yield 0xFF00, mk(k)
 
         def on_get(event):
             yield n
@@ -83,7 +85,7 @@ class ReleaseDuring(Scenario):
                 hold(k)
                 if k < n:
                     ctx["handler_log"].append(("yield", k))
-                    yield 0xFF00, mk()
+                    yield 0xFF00, mk(k)
 
         def on_move(event):
             yield ("127.0.0.1", scen.PORT + 1)
@@ -92,7 +94,7 @@ class ReleaseDuring(Scenario):
                 hold(k)
                 if k < n:
                     ctx["handler_log"].append(("yield", k))
-                    yield 0xFF00, mk()
+                    yield 0xFF00, mk(k)
 
         handlers = list(rec.handlers()) + [(evt.EVT_C_FIND, on_find), (evt.EVT_C_GET, on_get), (evt.EVT_C_MOVE, on_move), (evt.EVT_ESTABLISHED, lambda e: ctx["acc_assocs"].append(e.assoc))]
         scen.start_server(s, ae, handlers, max_requests=1)
@@ -232,6 +234,11 @@ def scenarios(quick):
                 pts += [("substore", k) for k in range(n)]
             for p in pts:
                 out.append(ReleaseDuring(op, n, p))
+            # a sub-operation whose instance cannot be encoded (the C-STORE fails locally), release afterwards
+            if op in ("get", "move") and n in (1, 2):
+                for bad in range(n):
+                    for p in (("after",), ("yield", n)):
+                        out.append(ReleaseDuring(op, n, p, bad=bad))
     return out
 
 
@@ -255,7 +262,7 @@ def run(ctx: core.Ctx) -> core.Result:
         for k, (what, pfx) in r["viols"].items():
             if k not in seen:
                 seen.add(k)
-                viol.append(core.Violation(k, what, {"op": scn.op, "n": scn.n, "point": list(scn.point), "choices": pfx}))
+                viol.append(core.Violation(k, what, {"op": scn.op, "n": scn.n, "point": list(scn.point), "bad": scn.bad, "choices": pfx}))
     cov = {
         "states": tot["steps"],
         "transitions": tot["decisions"],
@@ -271,7 +278,7 @@ def run(ctx: core.Ctx) -> core.Result:
 
 
 def replay(ctx, data):
-    scn = ReleaseDuring(data["op"], data["n"], tuple(data["point"]))
+    scn = ReleaseDuring(data["op"], data["n"], tuple(data["point"]), data.get("bad"))
     r = explore.execute(scn, tuple(data["choices"]), want_obs=True)
     for o in r["obs"]:
         if o[0] == "evt" and o[3] in ("EVT_DATA_SENT", "EVT_DATA_RECV"):
